@@ -152,7 +152,7 @@ func tTag(c context, s []byte) (context, int) {
 	return context{
 		state:   state,
 		element: c.element,
-		attr:    attr{name: strings.ToLower(string(s[i:j]))},
+		attr:    attr{name: asciiToLower(s[i:j])},
 		linkRel: c.linkRel,
 	}, j
 }
@@ -286,6 +286,21 @@ func eatAttrName(s []byte, i int) (int, *Error) {
 // asciiAlpha reports whether c is an ASCII letter.
 func asciiAlpha(c byte) bool {
 	return 'A' <= c && c <= 'Z' || 'a' <= c && c <= 'z'
+}
+
+// asciiToLower returns s with the ASCII letters A-Z replaced by a-z, the way an HTML
+// tokenizer lower-cases names. Unlike strings.ToLower it leaves all other characters alone
+// (strings.ToLower maps U+0130 to 'i' and the Kelvin sign U+212A to 'k').
+func asciiToLower(s []byte) string {
+	var b bytes.Buffer
+	for i := 0; i < len(s); i++ {
+		c := s[i]
+		if 'A' <= c && c <= 'Z' {
+			c += 'a' - 'A'
+		}
+		b.WriteByte(c)
+	}
+	return b.String()
 }
 
 // asciiAlphaNum reports whether c is an ASCII letter or digit.
